@@ -827,6 +827,7 @@ func (d *refreshDebouncer) flusher() {
 		case <-d.timer.C:
 		case <-d.quit:
 		}
+		verifYield("rd.woke", nil, 0)
 		d.mu.Lock()
 		if d.stopped {
 			if d.broadcaster != nil {
@@ -853,6 +854,7 @@ func (d *refreshDebouncer) flusher() {
 		curBroadcaster := d.broadcaster
 		d.broadcaster = nil
 		d.mu.Unlock()
+		verifYield("rd.beforeRefresh", nil, 0)
 
 		err := d.refreshFn()
 		if curBroadcaster != nil {
@@ -869,6 +871,7 @@ func (d *refreshDebouncer) stop() {
 	}
 	d.stopped = true
 	d.mu.Unlock()
+	verifYield("rd.stop", nil, 0)
 	d.quit <- struct{}{} // sync with flusher
 	close(d.quit)
 }
